@@ -231,7 +231,17 @@ def part_a(tier, seed, failures, stats, focus=None):
         except ZeroDivisionError:
             continue
         except Exception as e:  # noqa: BLE001
-            failures.append(f"operators: building {show(t)} raised {type(e).__name__}: {e}")
+            # the same exception from SymPy alone, given the directly constructed expression, is SymPy's defect (e.g. the
+            # RecursionError of Mod(N - 2, M + 1) over positive integer symbols in SymPy 1.14), not onnx_ir's
+            try:
+                sympy_direct(t)
+                alone = None
+            except Exception as e2:  # noqa: BLE001
+                alone = type(e2).__name__
+            if alone == type(e).__name__:
+                SYMPY_DEFECTS.append(f"building {show(t)}: SymPy alone raises {alone}")
+            else:
+                failures.append(f"operators: building {show(t)} raised {type(e).__name__}: {e}")
             continue
         if isinstance(d, int):
             continue
